@@ -63,3 +63,108 @@ func TestVerifWitness_DR2(t *testing.T) {
 		t.Fatalf("import of {2<<16} into {1, 5<<16} = %v", got)
 	}
 }
+
+func vr2WitnessRange(lo, hi int) []uint16 {
+	var out []uint16
+	for v := lo; v <= hi; v++ {
+		out = append(out, uint16(v))
+	}
+	return out
+}
+
+func vr2WitnessDecode(t *testing.T, data []byte) []uint64 {
+	b := NewBitmap()
+	if err := b.UnmarshalBinary(data); err != nil {
+		t.Fatalf("UnmarshalBinary: %v", err)
+	}
+	return b.Slice()
+}
+
+// D3: readWithRuns converted start:length to start:last inside the caller's buffer.
+func TestVerifWitness_D3(t *testing.T) {
+	vals := append(append(vr2WitnessRange(0, 2), vr2WitnessRange(10, 12)...), vr2WitnessRange(20, 22)...)
+	data := vr2OffEncode([]vr2OffCont{{Key: 0, Run: true, Vals: vals}})
+	orig := vr2CopyBytes(data)
+	first := vr2WitnessDecode(t, data)
+	if i := vr2FirstDiff(data, orig); i != -1 {
+		t.Fatalf("UnmarshalBinary of an official run container ([0-2],[10-12],[20-22]) modified the input at byte %d", i)
+	}
+	second := vr2WitnessDecode(t, data)
+	if !vEq(first, second) || len(first) != 9 {
+		t.Fatalf("decoding the same bytes twice: %v then %v", first, second)
+	}
+}
+
+// D4: run cookie with >= 4 containers carries an offset header that the readers did not skip.
+func TestVerifWitness_D4(t *testing.T) {
+	conts := []vr2OffCont{
+		{Key: 0, Run: true, Vals: vr2WitnessRange(1, 10)},
+		{Key: 1, Vals: []uint16{1}},
+		{Key: 2, Vals: []uint16{2}},
+		{Key: 3, Vals: []uint16{3}},
+	}
+	data := vr2OffEncode(conts)
+	want := vr2OffModel(conts)
+	if got := vr2WitnessDecode(t, data); !vEq(got, want) {
+		t.Fatalf("UnmarshalBinary of 4 containers under the run cookie: %s", vDiff(got, want))
+	}
+	b := NewBTreeBitmap()
+	changed, _, err := b.ImportRoaringBits(data, false, false, 0)
+	if err != nil {
+		t.Fatalf("ImportRoaringBits of 4 containers under the run cookie: %v", err)
+	}
+	if got := b.Slice(); changed != len(want) || !vEq(got, want) {
+		t.Fatalf("ImportRoaringBits of 4 containers under the run cookie: changed=%d %s", changed, vDiff(got, want))
+	}
+}
+
+// DR3: official non-run container with exactly 4096 values is an array, was read as a bitset.
+func TestVerifWitness_DR3(t *testing.T) {
+	var vals []uint16
+	for i := 0; i < 4096; i++ {
+		vals = append(vals, uint16(i*3))
+	}
+	conts := []vr2OffCont{{Key: 0, Vals: vals}}
+	data := vr2OffEncode(conts)
+	want := vr2OffModel(conts)
+	if got := vr2WitnessDecode(t, data); !vEq(got, want) {
+		t.Fatalf("UnmarshalBinary of an official 4096-value array container: %s", vDiff(got, want))
+	}
+	b := NewBTreeBitmap()
+	if _, _, err := b.ImportRoaringBits(data, false, false, 0); err != nil {
+		t.Fatal(err)
+	}
+	if got := b.Slice(); !vEq(got, want) {
+		t.Fatalf("ImportRoaringBits of an official 4096-value array container: %s", vDiff(got, want))
+	}
+}
+
+// DR4: run count * 4 computed in uint16 (>= 16384 runs) misplaced the following containers.
+func TestVerifWitness_DR4(t *testing.T) {
+	var alt []uint16
+	for v := 0; v < 65536; v += 2 {
+		alt = append(alt, uint16(v))
+	}
+	conts := []vr2OffCont{{Key: 0, Run: true, Vals: alt}, {Key: 1, Vals: []uint16{7, 9}}}
+	data := vr2OffEncode(conts)
+	want := vr2OffModel(conts)
+	if got := vr2WitnessDecode(t, data); !vEq(got, want) {
+		t.Fatalf("UnmarshalBinary of a 32768-run container followed by an array: %s", vDiff(got, want))
+	}
+}
+
+// DR5: run cookie with 65536 containers: count-1 = 65535 wrapped to 0 containers.
+func TestVerifWitness_DR5(t *testing.T) {
+	conts := make([]vr2OffCont, 65536)
+	for i := range conts {
+		conts[i] = vr2OffCont{Key: uint16(i), Run: i == 0, Vals: []uint16{uint16(i)}}
+	}
+	data := vr2OffEncode(conts)
+	b := NewBitmap()
+	if err := b.UnmarshalBinary(data); err != nil {
+		t.Fatalf("UnmarshalBinary of 65536 containers under the run cookie: %v", err)
+	}
+	if got := b.Count(); got != 65536 {
+		t.Fatalf("65536 containers under the run cookie decoded to %d values, want 65536", got)
+	}
+}
